@@ -20,6 +20,7 @@ type PackagesFacade struct {
 
 	fileSet       *token.FileSet
 	files         map[string]*ast.File         // filename → *ast.File
+	globbedFiles  map[string]struct{}          // names of the files matched by the configured globs
 	fileToPackage map[string]*packages.Package // filename → owning *packages.Package
 
 	packagesCache  map[string]*packages.Package // pkgPath → *packages.Package
@@ -33,6 +34,7 @@ func NewPackagesFacade(config PackageFacadeConfig) (PackagesFacade, error) {
 		fileSet: token.NewFileSet(),
 
 		files:         make(map[string]*ast.File),
+		globbedFiles:  make(map[string]struct{}),
 		fileToPackage: make(map[string]*packages.Package),
 
 		packagesCache:  make(map[string]*packages.Package),
@@ -48,10 +50,14 @@ func (facade *PackagesFacade) FSet() *token.FileSet {
 }
 
 func (facade *PackagesFacade) GetAllSourceFiles() []*ast.File {
+	// Only files matched by the globs are sources; files of packages loaded on demand are registered too (for
+	// file → package lookups) but must not be visited, otherwise a later pass over the same facade sees more files.
 	// Files are visited in file-name order so that the outcome of a run does not depend on map iteration order
-	fileNames := make([]string, 0, len(facade.files))
-	for fileName := range facade.files {
-		fileNames = append(fileNames, fileName)
+	fileNames := make([]string, 0, len(facade.globbedFiles))
+	for fileName := range facade.globbedFiles {
+		if facade.files[fileName] != nil {
+			fileNames = append(fileNames, fileName)
+		}
 	}
 	slices.Sort(fileNames)
 
@@ -106,6 +112,10 @@ func (facade *PackagesFacade) initWithGlobs() error {
 
 			pkgPathsToLoad.Add(filepath.Dir(pkgPath))
 		}
+	}
+
+	for absSourcePath := range matchedAbsPaths {
+		facade.globbedFiles[absSourcePath] = struct{}{}
 	}
 
 	err := facade.loadPackagesFiltered(pkgPathsToLoad.ToSlice(), matchedAbsPaths)
